@@ -52,7 +52,7 @@ def REQUIRED(tier):
 
 
 def _required(tier):
-    return [
+    return ["regime:empty_request", "data:zero_packed_bytes",
         "plans_accepted", "plans_rejected_before_yield", "blocks_yielded", "regime:lastread<skipback", "regime:gulp>nsamps",
         "regime:block_crosses_file_boundary", "regime:partial_last_block_before_eof", "regime:gulp_not_dividing",
         "regime:start>0", "regime:skipback>gulp/2", "regime:skipback>=gulp", "overlap_audits", "spy:creadinto", "spy:seek",
@@ -115,7 +115,11 @@ def cases(tier, seed):
             ge = min(gulp, nsamps)
             skipback = int(rng.choice([0, 1, ge // 2, max(0, ge // 2 - 1), ge // 2 + 1, ge - 1 if ge > 1 else 0, ge, int(rng.integers(0, ge + 2))]))
             plans.append((gulp, start, nsamps, skipback))
-        yield {"cfg": {"N": N, "nbits": nbits, "nchans": nch, "split": split}, "dseed": int(seed) + 1000 + k,
+        plans.append((int(rng.integers(1, N + 1)), int(rng.integers(0, N)), 0, 0))   # an explicit empty request
+        cfg_r = {"N": N, "nbits": nbits, "nchans": nch, "split": split}
+        if nbits < 8 and k % 2:
+            cfg_r["sparse"] = True     # blanked stretches: whole packed bytes equal to zero between non-zero ones
+        yield {"cfg": cfg_r, "dseed": int(seed) + 1000 + k,
                "plans": plans, "alloc": ["default", "numpy", "bytearray", "mmap"][k % 4]}
 
 
@@ -153,6 +157,13 @@ def make_data(cfg, dseed):
         # unique ids: the value identifies (sample, channel)
         ids = (np.arange(N * nch).reshape(N, nch) * 7 + 3) % (65536 if nbits == 16 else 1 << 22)
         return ids.astype(np.uint16 if nbits == 16 else np.float32)
+    if cfg.get("sparse"):
+        X = sigfile.random_samples(rng, N, nch, nbits)
+        per = 8 // nbits
+        flat = X.reshape(-1)
+        groups = flat.reshape(-1, per)
+        groups[rng.random(groups.shape[0]) < 0.5] = 0          # half of the packed bytes are exactly zero
+        return flat.reshape(N, nch)
     for _ in range(50):
         X = sigfile.random_samples(rng, N, nch, nbits)
         if len({r.tobytes() for r in X}) == N:
@@ -212,6 +223,23 @@ def _regime(gulp, start, nsamps, skipback):
 def check_plan(ctx, fil, Xf, cfg, bounds, gulp, start, nsamps, skipback, alloc, one):
     nch = cfg["nchans"]
     N = cfg["N"]
+    if nsamps == 0:
+        # nothing was requested: refusing the plan (ValueError before any block) or yielding nothing are both fine; delivering samples is not
+        ctx.evaluated(); ctx.count("regime:empty_request")
+        got = []
+        try:
+            for nsamps_r, ii, data in fil.read_plan(gulp=gulp, start=start, nsamps=0, skipback=skipback, quiet=True, description="verif"):
+                got.append(int(nsamps_r))
+        except ValueError:
+            pass
+        except Exception as exc:  # noqa: BLE001
+            ctx.violation(f"reject-not-ValueError[empty-request]:{type(exc).__name__}", f"plan for 0 samples rejected with {fmt_exc(exc)}", one)
+            return
+        if got:
+            ctx.violation("empty-request-delivered-samples", f"read_plan(start={start}, nsamps=0, gulp={gulp}) yielded {len(got)} block(s) holding {sum(got)} samples", one)
+        return
+    if cfg.get("sparse"):
+        ctx.count("data:zero_packed_bytes")
     ge = min(gulp, nsamps)
     regime = _regime(gulp, start, nsamps, skipback)
     ctx.evaluated()
